@@ -4,6 +4,7 @@ import (
 	"bytes"
 	"encoding/json"
 	"errors"
+	"strconv"
 )
 
 func (v *VMValue) ToJSONRaw(save map[*VMValue]bool) ([]byte, error) {
@@ -148,7 +149,8 @@ func (v *VMValue) ToJSONRaw(save map[*VMValue]bool) ([]byte, error) {
 			}{fd.Name},
 		})
 	}
-	return nil, nil
+	// 未知的类型标记(只可能来自反序列化)没有 JSON 形式；返回空内容而不报错会让外层的数组/字典拼出 [..,,..] 这样的非法 JSON
+	return nil, errors.New("无法序列化的类型: " + strconv.Itoa(int(v.TypeId)))
 }
 
 func (v *VMValue) ToJSON() ([]byte, error) {
